@@ -93,7 +93,10 @@ def run(check, tier, seed, scratch):
     all1 = [(i, j, k) for i in range(len(U1)) for j in range(len(U1)) for k in range(len(U1)) if role_consistent([U1[i], U1[j], U1[k]])]
     u1 = Universe(U1)
     check.cov['one_name_triples'] = len(all1)
+    # the unary / neutral-element laws also for signatures whose STAR parameters carry annotations (neutral means: nothing about s changes)
+    UA = [[dict(p, an=(1 if p['k'] == 'var' else 2 if p['k'] == 'vkw' else p['an'])) for p in ps] for ps in U2 if alggen.has_star(ps)]
     gen = alggen.chain(alggen.merge_pairs(up, UP), law_gen(u3, U3, triples, seed), law_gen(u1, U1, all1, seed, unary=False), alggen.merge_tuples(u1, U1, all1, tag='merge3-one-name'),
+                       law_gen(Universe(UA), UA, [], seed),
                        alggen.cex_events(cu, 'merge', cex))
     run_trace_leg(check, scratch, 'merge+laws', gen, WANT)
     check.cov['exhaustive'] = True
